@@ -7,6 +7,7 @@ CONSTANTS
   FailAt <- Fail11
   DevMode = TRUE
   MaxVer = 2
+  Scratch = FALSE
   Bug = "none"
 INIT Init
 NEXT Next
